@@ -247,6 +247,10 @@ class GenericDriver(Driver, BaseGenericDriver):
 
         """
         responses = self._pre_send_commands(commands=commands)
+        if not commands:
+            # nothing to send; there is no "last" command to send non-eagerly either
+            return responses
+
         for command in commands[:-1]:
             response = self._send_command(
                 command=command,
